@@ -22,6 +22,10 @@ pub unsafe extern "C" fn getrandom(buf: *mut libc::c_void, len: libc::size_t, fl
     match st {
         None => libc::syscall(libc::SYS_getrandom, buf, len, flags) as libc::ssize_t,
         Some(mut s) => {
+            if DEBUG_DRAWS.load(std::sync::atomic::Ordering::Relaxed) {
+                let msg = format!("[draw len={len} flags={flags}]\n");
+                libc::write(2, msg.as_ptr().cast(), msg.len());
+            }
             let out = std::slice::from_raw_parts_mut(buf.cast::<u8>(), len);
             for chunk in out.chunks_mut(8) {
                 let v = crate::rng::splitmix64(&mut s).to_le_bytes();
@@ -30,6 +34,27 @@ pub unsafe extern "C" fn getrandom(buf: *mut libc::c_void, len: libc::size_t, fl
             STREAM.with(|c| c.set(Some(s)));
             DRAWS.with(|c| c.set(c.get() + 1));
             len as libc::ssize_t
+        }
+    }
+}
+
+pub static DEBUG_DRAWS: std::sync::atomic::AtomicBool = std::sync::atomic::AtomicBool::new(false);
+
+/// `rand`'s thread RNG reseeds itself on first use in any thread created after the process has
+/// forked at least once (it counts forks through `pthread_atfork`). A harness process forks when it
+/// starts `rva` children, so whether an incarnation makes that extra 32-byte draw would depend on
+/// the process's history and shift every later draw (hash keys, UUIDs). Put every harness process
+/// into the "has forked" state before the first incarnation: register the handler (by creating a
+/// thread RNG), then fork once.
+pub fn normalise_fork_state() {
+    let _ = uuid::Uuid::new_v4();
+    unsafe {
+        let pid = libc::fork();
+        if pid == 0 {
+            libc::_exit(0);
+        } else if pid > 0 {
+            let mut st = 0;
+            libc::waitpid(pid, &mut st, 0);
         }
     }
 }
